@@ -17,7 +17,7 @@ func init() {
 			{Pkg: "reactive", Harness: "eviction", Weight: 1},
 		},
 		QuickS: 30, ThoroughS: 900,
-		Rule:   "each run draws a graph (DerivedVariable1-3, chained derived variables, InheritFrom, DeriveValueFrom; DerivedSet.InheritFrom of 1-3 sources or SubtractReactive; Counter.Monitor of 1-3 inputs; SortedSet over 4 elements with weight variables; WaitGroup over 3 elements; EvictionState over 6 slots), 1-3 writers x 1-4 operations on the inputs, tasks that build / tear down / unsubscribe parts of the graph while the writers run, and a schedule; distinct = distinct (script, schedule, event log) hash; non-trivial = at least two recorded decisions",
+		Rule:   "each run draws a graph (DerivedVariable1-4 over 3 or 4 inputs, chained derived variables, InheritFrom, DeriveValueFrom; DerivedSet.InheritFrom of 1-3 sources or SubtractReactive; Counter.Monitor of 1-3 inputs; SortedSet over 4 elements with weight variables; WaitGroup over 3 elements; EvictionState over 6 slots), 1-3 writers x 1-4 operations on the inputs, tasks that build / tear down / unsubscribe parts of the graph while the writers run, and a schedule; distinct = distinct (script, schedule, event log) hash; non-trivial = at least two recorded decisions",
 		Real:   []string{"ds/reactive (Variable, DerivedVariable, Set, DerivedSet, SubtractReactive, Counter, SortedSet, WaitGroup, EvictionState, Event)", "ds (Set, SetMutations, SetArithmetic)", "ds/shrinkingmap, ds/orderedmap"},
 		Stubs:  commonStubs,
 		Assume: []string{"one task executes at a time; context switches only at sync/atomic operations and explicit yields (plain-memory races are invisible)", "value oracles are evaluated at quiescence only, after the deadlock oracle; a derived variable that was unsubscribed from its inputs is no longer compared", "Counter: a monitor that was unsubscribed keeps the contribution it had at that moment (either contribution if a write to that input overlapped the unsubscribe call)", "SortedSet: elements of equal weight may appear in any order, any element of maximal/minimal weight is accepted as heaviest/lightest", "WaitGroup: judged from ghost state (element definitely pending from the return of an Add no Done overlapped until the next Done is invoked) and the library's own PendingElements at quiescence", "bounded: <=3 writers x <=4 operations, <=3 structural tasks"},
